@@ -24,6 +24,7 @@ ACCEPTED = {
     ("nifly::NiBlockRefArray::SetSize", "*", "resize"): "fixed-size configuration of the constraint entity pair (always 2)",
     ("nifly::NiRefArray::SetKeepEmptyRefs", "keepEmptyRefs", "="): "configuration flag, not model content",
     ("nifly::NiString::SetNullOutput", "nullOutput", "="): "output-format configuration of header strings",
+    ("nifly::NiHeader::Put", "blockSizePos", "="): "stream position of the size table, kept for the back-patch after the blocks are written; not model content",
     ("nifly::NiString::Write", "str", "resize"): "truncation to the width of the length prefix: a no-op unless the string exceeds the wire format's capacity",
     ("nifly::NiStringRef::Write", "str", "resize"): "truncation to the width of the length prefix: a no-op unless the string exceeds the wire format's capacity",
     ("nifly::NiAnimationKeyGroup::Sync", "type", "="): "every key carries the group's interpolation type; re-asserted, not changed",
@@ -46,6 +47,23 @@ ACCEPTED = {
     ("nifly::NiStringRefVector::Write", "*", "resize"): "clamp to the capacity of the count field",
     ("nifly::NiPalette::Sync", "*", "resize"): "palette normalised to its fixed entry count",
     ("nifly::BSGeometryMeshData::Sync", "*", "*"): "packed wire representation derived from the float arrays before writing",
+}
+
+
+# Query-time writes of a serialised member that are accepted, keyed by (member, performing function), one reason each.
+QUERY_ACCEPTED = {
+    # member appearing on the changed path -> (performing functions, reason)
+    "trueTriangles": (("nifly::NiSkinPartition::PartitionBlock::GenerateTrueTrianglesFromMappedTriangles", "nifly::ApplyMapToTriangles",
+                       "nifly::Triangle::set", "nifly::Triangle::rot", "nifly::NiSkinPartition::PartitionBlock::ConvertStripsToTriangles",
+                       "nifly::NiSkinPartition::PrepareTrueTriangles"),
+                      "trueTriangles is written to the file only for SSE (user >= 12, stream 100), where the reader fills it and "
+                      "PrepareTrueTriangles leaves a filled list alone; the mapped derivation runs only when bMappedIndices is set, which "
+                      "the reader clears for exactly that version: wherever these functions write it, the member is the derived cache"),
+}
+
+# public const methods of NifFile that are edits by contract, not read-only queries (one line of reason each)
+NOT_A_QUERY = {
+    "RemoveInvalidTris": "declared const but documented as an edit ('Removes triangles with vertex indices that don't exist')",
 }
 
 
@@ -86,6 +104,14 @@ def make_primitive(F):
                 return [Event(p, "mut", {"op": n["op"], "rhs": show(n["r"])[:80], "fn": fn["name"], "loc": n.get("loc"),
                                          "file": fn.get("file"), "rhs_path": env.path(n["r"]) if is_node(n["r"]) else None,
                                          "rhs_val": n["r"].get("val") if is_node(n["r"]) else None})]
+            return None
+        if k == "OpCall" and n.get("op") == "=" and len(n.get("args", [])) == 2 and not n.get("cls", "").startswith("nifly::NiStream"):
+            # class-type assignment (std::vector / std::string / user operator=): the whole left operand is replaced
+            p = env.path(n["args"][0])
+            if p is not None and p[0][0] in ("this", "$p") and (n.get("ext") or not F.call_targets(n)):
+                return [Event(p, "mut", {"op": "=", "rhs": show(n["args"][1])[:80], "fn": fn["name"], "loc": n.get("loc"),
+                                         "file": fn.get("file"), "rhs_path": env.path(n["args"][1]) if is_node(n["args"][1]) else None,
+                                         "rhs_val": None})]
             return None
         if k == "Unary" and n["op"] in ("++", "--"):
             p = env.path(n["e"])
@@ -130,6 +156,7 @@ def run(F, chk):
     classes = sorted(set(c11.factory_types(F)) | {"nifly::NiHeader", "nifly::NiUnknown"})
     seen1, seen2 = {}, {}
     nmut = 0
+    wire = {}  # class -> member paths (relative to the block) that its Put hands to a stream primitive
     for c in classes:
         puts = F.method(c, "Put")
         if not puts:
@@ -141,6 +168,7 @@ def run(F, chk):
                 continue
             if ev.kind != "mut":
                 synced.append((j, ev))
+                wire.setdefault(c, set()).add(tuple(ev.path[1:]))
                 continue
             nmut += 1
             info = ev.info
@@ -225,6 +253,72 @@ def run(F, chk):
                           "%s assigns to its operand `%s` while writing: every field written through it is changed in the live model "
                           "by saving" % (fn["name"], show(n["l"] if n["k"] == "Assign" else n["e"])))
     chk.floor(R4, 5)
+
+    # ---------------------------------------------------------------- R2.5 read-only queries
+    R5 = chk.rule("R2.5", "a read-only query (public const method of NifFile) never changes a member that some block class hands to "
+                          "the stream when it is written: what a query touches may only be derived caches, otherwise the save after "
+                          "the query differs from the save before it")
+    Sq = paths.Summarizer(F, make_primitive(F), mode=None, value_proxies=False,
+                          node_kinds=("Call", "OpCall", "Construct", "Assign", "Unary"))
+    nq = 0
+    for fn in sorted(F.fns.values(), key=lambda f: f["id"]):
+        if fn.get("cls") != "nifly::NifFile" or not fn.get("const") or fn.get("access") != "public" or fn.get("tmpl") == "pattern":
+            continue
+        if fn["short"] in NOT_A_QUERY:
+            continue
+        nq += 1
+        vtypes = {}
+        for p_ in fn.get("params", []):
+            vtypes[p_["id"]] = p_.get("ct") or p_.get("t") or ""
+        for n in walk(fn.get("body") or {}):
+            vs = n.get("vars", []) if n["k"] == "Decl" else ([n["var"]] if n["k"] in ("If", "While", "RangeFor") and n.get("var") else [])
+            for v in vs:
+                vtypes[v["id"]] = v.get("ct") or v.get("t") or ""
+        bad = {}
+        accepted_q = {}
+        for ev in Sq.events(fn["id"]):
+            if ev.kind != "mut" or ev.path is None or ev.path[0][0] not in ("$v", "$p"):
+                continue
+            root = ev.path[0]
+            vid = root[1] if root[0] == "$v" else (fn["params"][root[1]]["id"] if root[1] < len(fn.get("params", [])) else None)
+            t = vtypes.get(vid, "")
+            if "const " in t.split("*")[0].split("&")[0] and False:
+                continue
+            cls = re.sub(r"^(const\s+)?", "", t).replace("*", "").replace("&", "").replace("const", "").strip()
+            if cls not in F.recs or not (F.derives_from(cls, "nifly::NiObject") or cls == "nifly::NiObject"):
+                continue
+            rel = tuple(ev.path[1:])
+            if not rel:
+                continue
+            hit = None
+            for d, ws in wire.items():
+                if d != cls and not F.derives_from(d, cls):
+                    continue
+                for w in ws:
+                    m = min(len(w), len(rel))
+                    if m and w[:m] == rel[:m]:
+                        hit = (d, w)
+                        break
+                if hit:
+                    break
+            if hit:
+                key = "%s.%s:%s" % (cls.split("::")[-1], render((("this",),) + rel), strip_targs(ev.info["fn"]).split("::")[-1])
+                why = None
+                for mem, (fns_, reason) in QUERY_ACCEPTED.items():
+                    if mem in rel and strip_targs(ev.info["fn"]) in fns_:
+                        why = reason
+                if why is None:
+                    bad.setdefault(key, (ev, hit))
+                else:
+                    accepted_q[key] = why
+        chk.instance(R5, ok=not bad, sample={"query": fn["name"], "serialised_members_changed": sorted(bad), "accepted": accepted_q})
+        for key, (ev, hit) in sorted(bad.items()):
+            info = ev.info
+            chk.violation("R2.5", "C02/R2.5:%s:%s" % (fn["short"], key), "%s:%s" % (info.get("file"), (info.get("loc") or "").split(":")[0]),
+                          "the read-only query %s changes `%s` (%s in %s), a member that %s::Put writes to the file: the save after "
+                          "the query differs from the save before it" % (fn["name"], key, info["op"], info["fn"], hit[0]))
+    chk.extra["read_only_queries"] = nq
+    chk.floor(R5, 40)
 
     # ---------------------------------------------------------------- R2.3
     fin = F.fn1("nifly::NifFile::FinalizeData")
